@@ -146,7 +146,7 @@ StepRec(p, i, dp, fam, e, def, multi, extra, trunk, peer) ==
 Params == { r \in [dp : MCDps, fam : MCFams, e : MCEnis, multi : MCMulti, extra : MCExtra, trunk : MCTrunk, peer : BOOLEAN, aset : 0..2] :
               /\ (r.trunk => r.dp \in {"policy", "ipvlan"}) /\ (~r.peer => r.dp = "exclusive")
               /\ (~GenOn => r.aset = 0) }
-Draw(S) == IF GenOn THEN {RandomElement(S)} ELSE S
+Draw(S) == IF GenOn /\ S # {} THEN {RandomElement(S)} ELSE S
 
 Step ==
   \/ \E p \in MCPods : \E r \in Draw(Params) :
@@ -165,6 +165,7 @@ Step ==
                e == 5 - c0.eniIdx
                c == MCCfg(p, 1, c0.dp, fam, e, FALSE, TRUE, extra, c0.strip, FALSE)
                ref == RefSetup(c) IN
+           /\ \A b \in Atts : IsLive(live, b) /\ live[b].dp \in {"policy", "ipvlan"} /\ c.dp \in {"policy", "ipvlan"} /\ live[b].eniIdx = c.eniIdx => live[b].strip = c.strip
            /\ SetupOk(c, Applied(ns, ref.links, ref.confs))
            /\ G("C13", Judge(ViolSysctl(c, ref.confs)))
            /\ H(StepRec(p, 1, c0.dp, fam, e, FALSE, TRUE, extra, c0.strip, FALSE))
